@@ -41,7 +41,9 @@ Check(t) ==
              rows == IF t.prm = <<>> THEN <<<<>>>> ELSE t.prm
          IN
          IF e.k = "point" \/ HasNode(e, "point") THEN <<"ok", "", 0>>
-         ELSE IF t.box_exc # "" THEN <<"bounding-box-failed:" \o t.box_exc, "", 0>>
+         \* (a product / union containing a Translate fails when concatenating the per-row box of the known finding)
+         ELSE IF t.box_exc # "" THEN <<"bounding-box-failed:" \o t.box_exc,
+                                       IF HasNode(E(t), "trans") /\ t.box_exc = "RuntimeError" /\ E(t).k \in {"prod", "union", "and"} THEN "translate_bbox_per_row" ELSE "", 0>>
          ELSE IF t.box_shape # <<2 * d>> THEN
               <<"box-shape", IF HasNode(E(t), "trans") /\ Len(t.box_shape) = 2 /\ t.box_shape[2] = 2 * d THEN "translate_bbox_per_row" ELSE "", 0>>
          ELSE IF \E i \in DOMAIN rows : ~Encloses(e, rows[i], t.box) THEN <<"box-does-not-enclose-domain", "", Len(rows)>>
